@@ -278,10 +278,58 @@ fn check_no_coordinates(cfg: &Cfg, acc: &mut Acc) {
     }
 }
 
+/// Locations reached through a history, not only freshly built ones: for every ordered pair
+/// (a, b) of named points, `from_coords(a).with_coords(b)` must behave as `new(zone of a)
+/// .with_coords(b)` — the events of the coordinates attached *last*, in the zone of the location.
+fn check_construction_paths(acc: &mut Acc) {
+    let pts = named_points();
+    let dates = [ymd(2024, 3, 20), ymd(2024, 6, 21), ymd(2024, 12, 21)];
+    for (_, la, lo) in &pts {
+        let Some(a) = Coordinates::new(*la, *lo) else { continue };
+        let Ok(from_a) = catch(|| TzLocation::from_coords(a)) else { continue };
+        let tz = *from_a.get_timezone();
+        for (_, lb, lob) in &pts {
+            let Some(b) = Coordinates::new(*lb, *lob) else { continue };
+            acc.add("evaluations", 1);
+            acc.add("transitions", 1);
+            let moved = from_a.clone().with_coords(b);
+            let fresh = TzLocation::new(tz).with_coords(b);
+            let mut ok = moved == fresh;
+            let mut detail = String::new();
+            if !ok {
+                detail = "from_coords(a).with_coords(b) != new(zone of a).with_coords(b)".to_string();
+            }
+            for d in dates {
+                for e in EVENTS {
+                    let u = b.event_time(d, e).naive_utc();
+                    let exp = (u + Duration::seconds(tz.offset_from_utc_datetime(&u).fix().local_minus_utc() as i64)).time();
+                    match catch(|| moved.event_time(d, e)) {
+                        Ok(got) if got == exp => {}
+                        Ok(got) => {
+                            ok = false;
+                            detail = format!("after from_coords(({la}, {lo})).with_coords(({lb}, {lob})): {e:?} on {d} = {got}, the event of the coordinates attached last is {exp} in {}", tz.name());
+                        }
+                        Err(p) => {
+                            ok = false;
+                            detail = format!("event_time panicked: {} at {}", p.msg, p.loc);
+                        }
+                    }
+                }
+            }
+            if ok {
+                acc.add("traces_validated_against_impl", 1);
+            } else {
+                acc.violate(Violation::new("events_of_stale_coordinates", vec![], json!({"first": [la, lo], "then": [lb, lob]}), detail));
+            }
+        }
+    }
+}
+
 pub fn run(cfg: &Cfg) -> Outcome {
     let mut acc = Acc::new();
     check_no_coordinates(cfg, &mut acc);
     check_acceptance(&mut acc);
+    check_construction_paths(&mut acc);
     // grid
     let (dlat, dlon) = if cfg.quick() { (10, 15) } else { (5, 5) };
     let mut points: Vec<(String, f64, f64)> = Vec::new();
@@ -358,7 +406,7 @@ pub fn run(cfg: &Cfg) -> Outcome {
     acc.sample(json!({"acceptance": {"lat": "90 + 1ulp", "lon": 0, "expected": "rejected"}}));
     let mut o = Outcome::new("exploration", acc);
     o.exhaustive = false;
-    o.cov("rule", json!("grid × all days (floating-point coordinates are not finitely enumerable — stated): (a) no coordinates: every (quick: every 7th) date 1900..9999 × 4 events through NoLocation and TzLocation without coordinates in 4 zones == 06:00/07:00/19:00/20:00; (b) grid |lat| ≤ 60 step 5°/5° (quick 10°/15°) ∪ 40 named points × every day 1900..2100 (quick: 8 whole years): dawn < sunrise < sunset < dusk as instants, middle of sunrise/sunset within 20 min of an independent solar noon (longitude + equation of time), day length 4..20 h, TzLocation::event_time == wall clock of the UTC event in the inferred zone, zone offset within 6.5 h of solar time (western China on summer time is 4.1 h off), real `sunrise-sunset` (offsets 0, ±30, ±150 min) open at solar noon and (offsets ≤ 30) closed at solar noon ± 12 h; (c) Coordinates::new over all pairs of a 27-value IEEE boundary set: accepted ⇔ in range and not NaN; every accepted pair builds a zone/country/context and evaluates on 8 dates. distinct_nontrivial = coordinate points"));
+    o.cov("rule", json!("grid × all days (floating-point coordinates are not finitely enumerable — stated): (a) no coordinates: every (quick: every 7th) date 1900..9999 × 4 events through NoLocation and TzLocation without coordinates in 4 zones == 06:00/07:00/19:00/20:00; (b) grid |lat| ≤ 60 step 5°/5° (quick 10°/15°) ∪ 40 named points × every day 1900..2100 (quick: 8 whole years): dawn < sunrise < sunset < dusk as instants, middle of sunrise/sunset within 20 min of an independent solar noon (longitude + equation of time), day length 4..20 h, TzLocation::event_time == wall clock of the UTC event in the inferred zone, zone offset within 6.5 h of solar time (western China on summer time is 4.1 h off), real `sunrise-sunset` (offsets 0, ±30, ±150 min) open at solar noon and (offsets ≤ 30) closed at solar noon ± 12 h; (c) Coordinates::new over all pairs of a 27-value IEEE boundary set: accepted ⇔ in range and not NaN; every accepted pair builds a zone/country/context and evaluates on 8 dates; (d) every ordered pair (a, b) of the named points: from_coords(a).with_coords(b) == new(zone of a).with_coords(b) and its events are those of b. distinct_nontrivial = coordinate points"));
     o.assume("the `sunrise` crate's astronomy is trusted up to the stated sanity relations (ordering, independent noon, day length); tzf-rs polygons are trusted up to the 6.5-hour plausibility bound");
     o
 }
@@ -367,6 +415,10 @@ pub fn replay(_cfg: &Cfg, case: &Value) -> Vec<Violation> {
     let mut acc = Acc::new();
     if case.get("lat_bits").is_some() {
         check_acceptance(&mut acc);
+        return acc.groups.into_values().flat_map(|g| g.examples).collect();
+    }
+    if case.get("then").is_some() {
+        check_construction_paths(&mut acc);
         return acc.groups.into_values().flat_map(|g| g.examples).collect();
     }
     let (Some(lat), Some(lon)) = (case.get("lat").and_then(|v| v.as_f64()), case.get("lon").and_then(|v| v.as_f64())) else { return vec![] };
